@@ -172,7 +172,7 @@ func genDL(purpose string) func(t *rapid.T) dlCase {
 			c.WinMax = rapid.SampledFrom([]int64{math.MaxInt64, math.MaxInt64 - 1, 1 << 62, int64(290 * 365 * 24 * time.Hour)}).Draw(t, "winmaxHuge")
 		}
 		c.Threshold = rapid.SampledFrom([]int64{1, 1, 1000, 100_000, 2_000_000, 0, -5}).Draw(t, "threshold") // <= 0: no RTT filter at all
-		dynCase := (purpose == "c02" || purpose == "c20") && rapid.IntRange(0, 4).Draw(t, "dynCase") == 0                          // C02: some cases remove / add partitions while tokens are out (totals only are judged then)
+		dynCase := (purpose == "c02" || purpose == "c20") && rapid.IntRange(0, 4).Draw(t, "dynCase") == 0    // C02: some cases remove / add partitions while tokens are out (totals only are judged then)
 		ev := rapid.Custom(func(t *rapid.T) dlEv {
 			switch k := rapid.IntRange(0, 21).Draw(t, "k"); {
 			case k >= 20:
